@@ -1,7 +1,7 @@
 (* C04 — handles are independent and memory-safe across threads, under every schedule.   (partial: see below) *)
 From Coq Require Import Lia Arith List Bool String.
 From LSConc Require Import Clock Mach Inv Top.
-From LS Require Import Base Cmd Impl Proto ProtoOps Compose Programs Sched.
+From LS Require Import Base Cmd Impl Proto ProtoOps Compose Programs Sched Legacy.
 From LSGen Require Import GenSrc.
 Import ListNotations.
 
@@ -113,6 +113,13 @@ Theorem C04_shared_handles_safe : forall b0 l0 n opsf cf,
   WT b0 (fun _ => 1%nat) cf /\ forall t a e, Mach.step (ms cf) t a <> Mach.Err e.
 Proof. exact shared_handles_safe. Qed.
 
+(* the finding F1, as a theorem: reserve as it was before the repair (probe by decrement, read after giving the
+   reference up) cannot be typed against the protocol *)
+Theorem C04_legacy_reserve_refuted : forall b l add g (Q : repr * bool -> ghost -> Prop),
+  checked_add l add <> None -> g_refs g b = 1%nat -> g_excl g b = false ->
+  ~ okc (legacy_reserve (Heap b l) add) g Q.
+Proof. exact legacy_reserve_not_protocol_safe. Qed.
+
 (* non-vacuity: two threads, the stale-read schedule the design worries about *)
 Example C04_example :
   (exists s, Mach.run (Mach.init 2) [(0,AClone);(0,ASpawn 1 1);(1,ARead);(1,ARelease);(0,AProbe 0);(0,AWrite);(0,ARelease);(0,Mach.AFence);(0,AReadM);(0,AFree)]%nat = Mach.Ok s /\ Mach.live s = false)
@@ -168,5 +175,6 @@ Print Assumptions C04_shared_handles_typed.
 Print Assumptions C04_shared_handles_safe.
 Print Assumptions C04_all_finished_released.
 Print Assumptions C04_shared_handles_released.
+Print Assumptions C04_legacy_reserve_refuted.
 Print Assumptions C04_example.
 Print Assumptions C04_execution_example.
